@@ -36,4 +36,5 @@ def main():
     sys.exit(rc)
 
 
-main()
+if __name__ == "__main__":
+    main()
